@@ -148,6 +148,9 @@ var verifTemplates = []struct{ pre, suf string }{
 	{"new a", ""},
 	{"function f(", "){}"},
 	{"with(a)", ""},
+	{"x={set v(", "){}}"},
+	{"x={get v(){", "}}"},
+	{"switch(a){default:", "}"},
 }
 
 // Statement templates with symbolic holes: gets the byte-level exploration
